@@ -19,12 +19,17 @@ def prove_lemmas(names, prop, tier):
         return {}
     groups = registry().lemma_groups
     names = [s for nm in names for s in groups.get(nm, [nm])]
-    import multiprocessing as mp
-    with mp.get_context('fork').Pool(min(6, len(names))) as pool:
-        parts = pool.map(_prove_some, [([nm], prop, tier) for nm in names], chunksize=1)
+    from .procpool import TimedOut, run_jobs
+    hard = 420 if tier == 'quick' else 2400
+    parts = run_jobs(_prove_some, [([nm], prop, tier) for nm in names], min(6, len(names)), hard)
     out = {}
-    for p in parts:
-        out.update(p)
+    for nm, p in zip(names, parts):
+        if isinstance(p, dict):
+            out.update(p)
+        else:
+            why = f'no answer within the hard limit of {hard}s' if isinstance(p, TimedOut) else f'lemma worker failed: {str(p)[-300:]}'
+            out[f'lemma:{nm}'] = dict(name=f'lemma:{nm}', function='(lemma over contracts)', kind='lemma', serves=list(registry().lemmas[nm]['serves']), instances=1,
+                                      model='', reason=why, status='open', finite='open', unbounded='open', backend='z3', time_s=float(hard))
     return out
 
 
